@@ -128,6 +128,7 @@ func init() {
 				}
 				hs = append(hs, hx(p))
 			}
+			c.Begin("wedge " + strconv.Itoa(k) + " " + proto + " " + strings.Join(hs, ","))
 			c.Emit("wedge "+strconv.Itoa(k)+" "+proto+" "+strings.Join(hs, ","), runWedge(k, proto, ps))
 			c.Stat("proto:" + proto)
 			c.Stat("K:" + strconv.Itoa(k))
